@@ -351,15 +351,21 @@ func checkB(c CaseB) *core.Violation {
 
 func genB(t *rapid.T) CaseB {
 	var c CaseB
-	c.H.Agents = genAgents(t, 1, 4)
-	c.H.DB = rapid.SampledFrom([]string{"fresh", "existed", "golden"}).Draw(t, "db")
-	nreg := rapid.IntRange(1, len(c.H.Agents)).Draw(t, "nreg")
-	for i := 0; i < nreg; i++ {
-		c.H.Ops = append(c.H.Ops, Op{K: "reg", A: i})
+	nreg, n := 0, 0
+	if rapid.IntRange(0, 4).Draw(t, "pivot-trees") == 0 {
+		c.H = genPivotHistory(t, 4, 10) // piv_test.go
+		nreg, n = 1, len(c.H.Ops)-1
+	} else {
+		c.H.Agents = genAgents(t, 1, 4)
+		c.H.DB = rapid.SampledFrom([]string{"fresh", "existed", "golden"}).Draw(t, "db")
+		nreg = rapid.IntRange(1, len(c.H.Agents)).Draw(t, "nreg")
+		for i := 0; i < nreg; i++ {
+			c.H.Ops = append(c.H.Ops, Op{K: "reg", A: i})
+		}
+		n = rapid.IntRange(1, 14).Draw(t, "nops")
+		c.H.Ops = append(c.H.Ops, genOps(t, n, len(c.H.Agents), false)...)
+		c.H.Ops = withCrafted(t, c.H.Ops, nreg)
 	}
-	n := rapid.IntRange(1, 14).Draw(t, "nops")
-	c.H.Ops = append(c.H.Ops, genOps(t, n, len(c.H.Agents), false)...)
-	c.H.Ops = withCrafted(t, c.H.Ops, nreg)
 	// mostly aim at the operations after the initial registrations
 	if rapid.IntRange(0, 4).Draw(t, "kill_anywhere") == 0 {
 		c.KillOp = rapid.IntRange(0, len(c.H.Ops)-1).Draw(t, "kill_op")
@@ -393,7 +399,7 @@ func TestC10b(t *testing.T) {
 	}
 	core.Run(t, core.Spec[CaseB]{
 		Property: "C10", Sub: "b",
-		Rule: "FAULT ENUMERATION by generated kill points: a child process applies a generated history (1-4 registrations + 1-14 operations as in (a), SMB/External listeners only) to a database on disk and reports BEGIN i / END i; it is SIGKILLed either while idle after END k or delay_us (0-20000) after BEGIN k; the actual progress is read from the report pipe. Oracle: differential against an unkilled reference run of the same history - every TS_Agents / TS_Links / TS_Listeners row equals its image after all acknowledged operations, except that rows touched by the single in-flight operation may be in their before- or after-image (the two wall-clock columns FirstCallIn/LastCallIn are not compared). Non-trivial: the kill landed inside an operation (BEGIN reported, END not; measured); distinct = (kind of the in-flight operation, before/after/mixed image observed, db fresh/existed/golden)",
+		Rule: "FAULT ENUMERATION by generated kill points: a child process applies a generated history (1-4 registrations + 1-14 operations as in (a), SMB/External listeners only) to a database on disk and reports BEGIN i / END i; it is SIGKILLed either while idle after END k or delay_us (0-20000) after BEGIN k; the actual progress is read from the report pipe. Oracle: differential against an unkilled reference run of the same history - every TS_Agents / TS_Links / TS_Listeners row equals its image after all acknowledged operations, except that rows touched by the single in-flight operation may be in their before- or after-image (the two wall-clock columns FirstCallIn/LastCallIn are not compared). Non-trivial: the kill landed inside an operation (BEGIN reported, END not; measured); distinct = (kind of the in-flight operation, before/after/mixed image observed, db fresh/existed/golden) ADDED: a fifth of the histories are pivot-tree histories with restarts at any point as in (a) (3-4 agents, 3-10 events; the restart operations are carried out inside the child, kills land in and between them as for every other operation)",
 		Gen:   genB, Check: checkB, Classify: classifyB,
 		Assumptions: []string{
 			"process kill only (SIGKILL); no power-loss / torn-page simulation",
